@@ -728,6 +728,11 @@ impl Blockchain {
 
         let mut block = block.unwrap();
         self.blockring.delete_block(block.id, block.hash);
+        if self.blocks.is_empty() {
+            // the refused block was the only one the node held: it is back to having no block at all,
+            // and the next block it is offered is its first one again
+            self.blockring.empty = true;
+        }
         self.add_block_transactions_back(mempool, &mut block).await;
     }
 
